@@ -18,7 +18,8 @@ RULE = ("case = class with a scalar list (fixed size 0-3, random size up to 2-3,
 ASSUMPTIONS = ["reference semantics ref.py; sum is exact (wide enough never to overflow), product of an empty list is not judged",
                "exhaustive enumeration over (size, elements) up to 2^12 / 2^14 points per call"]
 CASE_TIMEOUT = 120
-DECIDE = J.VALUE_KINDS | J.LIST_KINDS | {"spurious-solve-failure", "unsat-returned-normally", "other-exception"}
+DECIDE = J.VALUE_KINDS | J.LIST_KINDS | {"spurious-solve-failure", "unsat-returned-normally", "other-exception",
+                                          "admissible-size-never-produced"}
 
 
 def plan(tier):
@@ -26,6 +27,8 @@ def plan(tier):
 
 
 def gen_case(rng, tier, idx):
+    if idx % 32 == 31:
+        return gen_size_case(rng, tier)
     for _ in range(30):
         prog, g = gen.list_program(rng)
         hist = gen.list_history(g, prog, ncalls=rng.randint(3, 6))
@@ -38,7 +41,102 @@ def gen_case(rng, tier, idx):
     return None
 
 
+def gen_size_case(rng, tier):
+    """tiny random-size list whose only constraints are on its size (values, ranges, relation to a scalar):
+    every admissible size - including 0 and 1 - must be produced with non-zero probability"""
+    m = rng.choice([2, 2, 3]) if tier == "quick" else rng.choice([2, 3, 3])
+    fields = [{"n": "a", "k": "int", "w": 2, "s": False, "r": True},
+              {"n": "l", "k": "list", "ek": "int", "w": 1, "s": False, "r": True, "rsz": True, "sz": 0, "szmax": m}]
+    c = rng.random()
+    st = []
+    if c < 0.4:
+        vals = sorted(set(rng.randint(0, m) for _ in range(rng.randint(1, 3))))
+        st.append(["e", ["in", ["sz", ["l"]], [["c", v] for v in vals]]])
+    elif c < 0.7:
+        st.append(["e", ["b", "<=", ["sz", ["l"]], ["c", m]]])
+        if rng.random() < 0.4:
+            st.append(["e", ["b", "!=", ["sz", ["l"]], ["c", rng.randint(0, m)]]])
+    else:
+        st.append(["e", ["b", "<=", ["sz", ["l"]], ["c", m]]])
+        st.append(["e", ["b", rng.choice(["<=", ">=", "=="]), ["sz", ["l"]], ["f", ["a"]]]])
+    prog = {"enums": {}, "classes": {"T": {"base": None, "fields": fields, "blocks": [{"n": "c0", "st": st}]}}, "top": "T"}
+    return {"prog": prog, "hist": [], "size_support": True, "seed": rng.randint(1, 1 << 30),
+            "max_paths": 4000 if tier == "quick" else 60000, "max_seconds": 12 if tier == "quick" else 120}
+
+
+def size_support(spec, cnt):
+    import copy
+    from .. import choice
+    from ..libstate import quiet, reset_lib_state
+    from ..session import Session
+    viol = []
+    sess = Session(spec["prog"], seed=spec["seed"])
+    sess.new("o0")
+    call = R.Call(spec["prog"], copy.deepcopy(sess.state["o0"]))
+    sols = call.enumerate(limit=1 << 14)
+    isz = [i for i, (p, t) in enumerate(call.rand_leaves) if t[0] == "size"][0]
+    feas = sorted(set(s[isz] for s in sols))
+    if not feas:
+        return viol
+    o = sess.live["o0"]
+    hk = sess.hook
+
+    def run(rs):
+        with sess.vsc.raw_mode():
+            l = o.l
+        l.clear()
+        o.a = 0
+        o.set_randstate(rs)
+        hk.start_call()
+        try:
+            with quiet():
+                o.randomize()
+        finally:
+            hk.end_call()
+            hk.release_all()
+        return (len(l), l.size, len(list(l)))
+    hk.light = True
+    try:
+        res = choice.enumerate_paths(run, max_paths=spec["max_paths"], max_seconds=spec["max_seconds"])
+    finally:
+        hk.light = False
+    reset_lib_state()
+    cnt.inc("m3_programs")
+    cnt.inc("m3_paths", res["paths"])
+    if res["abort"] or not res["complete"]:
+        cnt.inc("m3_incomplete")
+        return viol
+    cnt.inc("m3_complete")
+    cnt.inc("sizes_checked", len(feas))
+    raised = [k for k in res["dist"] if isinstance(k, tuple) and k and k[0] == "raised"]
+    if raised:
+        viol.append(("other-exception", "complete enumeration: some choice paths of a satisfiable random-size list program raise %s "
+                     "(admissible sizes %s)" % (raised, feas), None))
+    bad = [k for k, v in res["dist"].items() if v > 0 and k not in raised and not (k[0] == k[1] == k[2])]
+    if bad:
+        viol.append(("list-views-disagree", "len(), size and iteration disagree on some path: %s" % bad[:3], None))
+    prod = sorted(set(k[0] for k, v in res["dist"].items() if v > 0 and k not in raised))
+    wrong = [s_ for s_ in prod if s_ not in feas]
+    if wrong:
+        viol.append(("value-violates-constraint", "final list length %s violates the size constraints (admissible %s)" % (wrong, feas), None))
+    starved = [s_ for s_ in feas if s_ not in prod]
+    if starved and not raised:
+        viol.append(("admissible-size-never-produced", "complete enumeration of %d choice paths: the list never ends with size %s although "
+                     "the size constraints admit %s (produced %s)" % (res["paths"], starved, feas, prod),
+                     {"starved_field": (("l", "#sz"), ("int", 32, False)), "starved": starved, "feasible": feas, "ranges": None}))
+    return viol
+
+
 def exec_case(spec):
+    if spec.get("size_support"):
+        from .. import solvercase as SC
+        cnt = common.Counters()
+        try:
+            viol = size_support(spec, cnt)
+        except R.Corner as c:
+            return {"status": common.INCONC, "kind": "corner", "msg": str(c)}
+        res = {"counters": dict(cnt), "nontrivial": True, "source": SC.source_of(spec), "_viol": viol, "_evs": [], "_side": []}
+        return J.finish(res, "C04", spec, observed_key="m3_complete")
     res = J.judge(spec, DECIDE)
     if res.get("status") == common.INCONC:
         return res
